@@ -94,7 +94,7 @@ def stepLine (d : D) (line : String) : D × String :=
     | some cfg, some ck, some v =>
       let ck' := match v with | .asCoded => { ck with live := none } | .repaired => ck
       match load (fresh cfg : E) ck' with
-      | .ok (e', sdo) => ({ d with e := e', dict := some sdo }, obsStr e')
+      | .ok (e', sdo) => ({ d with e := e', dict := some sdo, sd := none }, obsStr e')
       | .error er => (d, errStr er)
     | _, _, _ => (d, "bad-state")
   | ["loadinto", m] =>
